@@ -782,6 +782,22 @@ pub fn check_journal(events: &[Event], prune_points: &[(usize, Vec<u32>, Vec<u32
                 rep.c("prunes_after_allocation_worker_loss", 1);
             }
         }
+        // an earlier prune may have been interrupted (server killed between creating
+        // `<journal>.tmp` and the rename): the stale file - here a prefix of the journal, cut at a
+        // record boundary or inside a record - must not leak into the next prune
+        {
+            let mut tmp_path: std::ffi::OsString = pf.clone().into();
+            tmp_path.push(".tmp");
+            let tmp_path = PathBuf::from(tmp_path);
+            let _ = std::fs::remove_file(&tmp_path);
+            if rng.chance(30, 100) && idx > 2 {
+                let k = rng.range(1, idx as u64 - 1) as usize;
+                let len = if rng.chance(50, 100) { bounds[k] } else { bounds[k] + rng.below((bounds[k + 1] - bounds[k]).max(1)) };
+                if copy_truncated(&full, &tmp_path, len).is_ok() {
+                    rep.c("prunes_with_stale_tmp_file", 1);
+                }
+            }
+        }
         let buffered: Vec<Event> = events[idx - m..idx].to_vec();
         let appended: Vec<Event> = events[idx..].iter().take(rng.usize_below(12) + 1).cloned().collect();
         match prune_via_thread(&pf, &buffered, live_jobs, live_workers, &appended, rng.chance(30, 100)) {
@@ -1056,7 +1072,7 @@ pub fn main(args: &[String]) -> i32 {
         "C10" => json!({"cuts_compared": 1000, "pending_tasks_checked": 3000, "pending_tasks_started_before": 60, "pending_tasks_with_deps": 60, "torn_tails": 40, "crash_runs.restarts": 5, "journals_with_queue_records": 10}),
         "C11" => json!({"cuts_compared": 1000, "cuts_highest_job_gone": 8, "crash_runs.restarts": 5}),
         "C03" | "C06" | "C07" => json!({}),
-        _ => json!({"prunes": 15, "prunes_with_pending_tasks": 8, "prunes_that_removed_records": 8, "journals_with_queue_records": 10, "prunes_with_unflushed_records": 8}),
+        _ => json!({"prunes": 15, "prunes_with_pending_tasks": 8, "prunes_that_removed_records": 8, "journals_with_queue_records": 10, "prunes_with_unflushed_records": 8, "prunes_with_stale_tmp_file": 8}),
     };
     let summary = json!({
         "prop": prop, "shard": shard, "seed": seed, "runs": runs, "steps": steps,
